@@ -80,6 +80,20 @@ def listNodes (fs : FS) : Nat → FPath → List (FPath × Node)
   | f + 1, dir => (fs.childrenOf dir).flatMap fun e =>
       e :: (if e.2 = .folder then listNodes fs f e.1 else [])
 
+/-- how the source doer's entry reaches the destination doer -/
+def sentryOf : Node → Option SEntry
+  | .file b (.at m) => some (.file b m)
+  | .folder => some .folder
+  | .symlink text => some (.link (readLinkB text))
+  | _ => none
+
+/-- the source as the boss sees it: what lies at a relative path below the source root -/
+def srcOfFS (S : FS) (rs : FPath) (p : FPath) : Option SEntry := (S.get (rs ++ p)).bind sentryOf
+
+/-- the source listing: the model's own listing of the source root, paths made relative -/
+def lsOfFS (S : FS) (rs : FPath) (f : Nat) : List (FPath × SEntry) :=
+  (listNodes S f rs).filterMap fun e => (sentryOf e.2).map fun s => (e.1.drop rs.length, s)
+
 /-- what a creation leaves at its path -/
 def written : SEntry → Node
   | .file b m => .file b (.at m)
